@@ -124,6 +124,10 @@ Print Assumptions C12_comments_kept_toplevel.
       environments ...),
     - (items of) arguments of a macro / specials whose text spec has no
       replacement and [discard=False] ([macro_concat]: \textbf \emph \textit \text ...),
+    - (items of) arguments of a macro / specials, items of the body of an
+      environment, rendered through a POSITIONAL replacement template with exactly
+      one [%s] per argument slot ([macro_tmpl_pos]: \url \underline \frac \hint ...;
+      [env_tmpl_pos]: center, flushleft, flushright),
     - and, with [thru_math = true], items of the body of a math node or of an
       equation-like environment in the modes that render formula bodies
       ('text', 'with-delimiters'); this needs [solid ('%' ++ c)]: the comment text
@@ -133,14 +137,14 @@ Print Assumptions C12_comments_kept_toplevel.
     PARTIAL.  Full statement (not proved):
       [o_keep_comments o = true -> forall comment node of text c that is rendered
        at all, infix ('%' ++ c) (fst (node_text ... n))].
-    Positions NOT covered: arguments substituted into a replacement template
-    ([%s] / [%(n)s]: \footnote, \url ...), arguments handed to a replacement
-    callable (\section, \href, \item[..], accents, math alphabets ...), matrix
-    cells. *)
+    Positions NOT covered: arguments substituted into a replacement template by
+    KEY ([%(n)s]: \footnote, \sqrt, \textcolor ...), arguments handed to a
+    replacement callable (\section, \href, \item[..], accents, math alphabets
+    ...), matrix cells. *)
 Theorem C12_comments_kept_covered_partial : forall src lt cx o thru_math c n,
   o_keep_comments o = true ->
   (thru_math = true -> solid (37%N :: c) = true) ->
-  covered lt o thru_math (is_comment_with c) n ->
+  covered lt cx o thru_math (is_comment_with c) n ->
   forall sl st, infix (37%N :: c) (fst (node_text src lt cx o sl st n)).
 Proof. intros src lt cx o tm c n Hk Hs Hc. now apply (kept_comment_covered src lt cx o Hk tm). Qed.
 Print Assumptions C12_comments_kept_covered_partial.
@@ -201,7 +205,7 @@ Print Assumptions C12_math_verbatim_independent.
     full statement = the same for every math node that is rendered at all. *)
 Theorem C12_math_verbatim_covered_partial : forall src lt cx o p e n,
   o_math o = MMVerbatim ->
-  covered lt o false (is_math_at p e) n ->
+  covered lt cx o false (is_math_at p e) n ->
   forall sl st, infix (slice src p e) (fst (node_text src lt cx o sl st n)).
 Proof. intros src lt cx o p e n Hm Hc. now apply verbatim_math_covered. Qed.
 Print Assumptions C12_math_verbatim_covered_partial.
@@ -324,8 +328,22 @@ Section Examples.
                (Some (NList (Some 1) (Some 8)
                   [Some (NChars 1 2 m0 [120%N]); Some (NComment 2 6 m0 mcom [10%N]);
                    Some (NChars 6 8 m0 [121;32]%N)])))].
+  Let center : str := [99;101;110;116;101;114]%N.
+  Let doc3 : node :=
+    NEnv 0 30 m0 center (Some ([], []))
+      (Some (NList (Some 14) (Some 20) [Some (NChars 14 15 m0 [97%N]); Some (NComment 15 19 m0 mcom [10%N])])).
+  Example C12_comments_kept_template_nonvacuous :
+    env_tmpl_pos lt center = true
+    /\ infix (37%N :: mcom) (fst (node_text src0 lt cx (o_of MMText true) sls_bos d0 doc3)).
+  Proof.
+    split; [vm_compute; reflexivity|].
+    apply (C12_comments_kept_covered_partial src0 lt cx (o_of MMText true) false); [reflexivity | discriminate |].
+    eapply cov_env_tmpl; [vm_compute; reflexivity | right; left; reflexivity |].
+    apply cov_leaf. now exists 15, 19, m0, [10%N].
+  Qed.
+
   Example C12_comments_kept_nonvacuous :
-    covered lt (o_of MMText true) false (is_comment_with secret) doc
+    covered lt cx (o_of MMText true) false (is_comment_with secret) doc
     /\ infix (37%N :: inner) (fst (node_text src0 lt cx (o_of MMText true) sls_bos d0 doc))
     /\ infix (37%N :: mcom) (fst (node_text src0 lt cx (o_of MMWithDelims true) sls_bos d0 doc2)).
   Proof.
